@@ -9,6 +9,12 @@ procedures defined in another file of the case - which is a genuine defect of th
 it happens (the original programs are checked the same way and must build, else HARNESS).
 
 The swap of `xform.build_run` is local to the calling (worker) process and undone on return.
+
+Build+run results (successes, gfortran diagnostics and Fortran run-time errors; never time-outs or tool failures)
+are memoised by exact program text and flags (gfortran and the generated program are
+deterministic; Loki - the system under test - is always re-executed).  By default the memo lives in the run's own
+scratch directory and dies with it; `VERIF_GF_MEMO=<dir>` (development aid for a heavily loaded machine, never set by
+MANIFEST commands) keeps it across runs, e.g. for the seed 0/1/2 repetitions that generate the same programs.
 """
 import hashlib
 import json
@@ -23,16 +29,20 @@ def merged_build_run(sources, driver, extra=(), base=None, flags=xform.FLAGS, ti
     parts = [t if t.endswith('\n') else t + '\n' for _, t in list(extra) + list(sources)] + [driver]
     text = ''.join(parts)
     memo = None
-    if base:
+    memo_dir = os.environ.get('VERIF_GF_MEMO') or base     # VERIF_GF_MEMO: opt-in memo directory that outlives one run
+    if memo_dir:
+        os.makedirs(str(memo_dir), exist_ok=True)
         key = hashlib.sha1(('\0'.join(flags) + '\0' + text).encode()).hexdigest()
-        memo = os.path.join(str(base), f'memo_{key}.json')
+        memo = os.path.join(str(memo_dir), f'memo_{key}.json')
         try:
             with open(memo) as fh:
                 return json.load(fh)
         except (OSError, ValueError):
             pass
     res = gf.compile_and_run([('all.f90', text)], flags=list(flags), base=base, timeout=timeout)
-    if memo and res.get('ok'):
+    err = res.get('err') or ''
+    deterministic_failure = (res.get('stage') == 'compile' and 'Error' in err) or 'Fortran runtime error' in err
+    if memo and (res.get('ok') or deterministic_failure):
         tmp = f'{memo}.{os.getpid()}.tmp'
         with open(tmp, 'w') as fh:
             json.dump(res, fh)
